@@ -60,6 +60,10 @@ func VerifyFunction(p *Program, name string, opt Options) FnReport {
 		rep.Err = "no contract"
 		return rep
 	}
+	if cs.AnchorErr != "" {
+		rep.Err = "bind: " + cs.AnchorErr
+		return rep
+	}
 	if fn == nil {
 		rep.Err = "bind: contract does not bind to any function in the current tree"
 		return rep
